@@ -158,6 +158,13 @@ def run(ctx):
                      ctx.construct(sws, extra=name),
                      '%s reached for %s' % (name, sorted(map(str, vals))),
                      ctx.loc(sws, c))
+            need = {S['PAUSED']} if name == 'pause_workflow' else \
+                {S['SUCCESS'], S['ERROR'], S['CANCELLED']}
+            r2.check(need <= vals, ctx.construct(sws, extra=name +
+                                                 ' for every such state'),
+                     '%s is not reached for requested state(s) %s (the '
+                     'engine command / API call would be refused)'
+                     % (name, sorted(need - vals)), ctx.loc(sws, c))
     other = [x for x in cfg.nodes if x.kind == 'stmt' and
              isinstance(x.ast, ast.Raise)]
     r2.check(any(not (sd.values_at(INw, kw, x, 'state') &
